@@ -186,7 +186,7 @@ func genSparseDiffPair(t *rapid.T) (a, b *World) {
 			Ingress: []Rule{{Peers: []Peer{{NsSel: &Selector{}}}}}})
 	}
 	b = a.Clone()
-	ne := rapid.IntRange(0, 2).Draw(t, "sparseing")
+	ne := rapid.IntRange(1, 2).Draw(t, "sparseing")
 	for e := 0; e < ne; e++ {
 		l := fmt.Sprintf("sp%d", e)
 		switch rapid.IntRange(0, 3).Draw(t, l+"kind") {
